@@ -50,7 +50,7 @@ require (
 	golang.org/x/crypto v0.25.0 // indirect
 	golang.org/x/sync v0.7.0 // indirect
 	golang.org/x/sys v0.22.0 // indirect
-	google.golang.org/protobuf v1.34.2 // indirect
+	google.golang.org/protobuf v1.34.2
 	lukechampine.com/blake3 v1.3.0 // indirect
 	pgregory.net/rapid v1.3.0
 )
